@@ -68,7 +68,11 @@ Section K.
     match params with
     | nPts :: rest =>
         let n := truncZ nPts in
-        if (n <=? 0)%Z then None
+        if (n <? 0)%Z then None
+        else if (n =? 0)%Z then
+          (* zero-row slices at row 1 of the column: the wrapper panics only when the
+             column has no second row; the empty table then fails at the first time step *)
+          match rest with [] => None | _ :: _ => Some ([], []) end
         else if (Z.of_nat (length rest) <? 2 * n)%Z then None
         else let k := Z.to_nat n in
              Some (firstn k rest, firstn k (skipn k rest))
